@@ -321,7 +321,13 @@ def c15(size, seed):
     rng = random.Random(seed)
     with tempfile.TemporaryDirectory() as tmp:
         allf = [(t, p) for n in range(1, nmax + 1) for t, p in forests(n, 3)]
-        sample = allf if size != "quick" else rng.sample([f for f in allf if len(f[0]) <= 3], 14) + rng.sample([f for f in allf if len(f[0]) == 4], 10)
+        if size == "quick":
+            sample = rng.sample([f for f in allf if len(f[0]) <= 3], 14) + rng.sample([f for f in allf if len(f[0]) == 4], 10)
+        else:
+            # every forest with <= 4 nodes plus a seeded sample of the 5-node ones (each case writes and re-reads files: ~0.15 s)
+            small = [f for f in allf if len(f[0]) <= 4]
+            big = [f for f in allf if len(f[0]) == 5]
+            sample = small + rng.sample(big, min(60, len(big)))
         for times, parents in sample:
             n = len(times)
             subsets = list(itertools.chain.from_iterable(itertools.combinations(range(n), k) for k in range(1, n + 1)))
